@@ -196,6 +196,7 @@ def select_check(case):
         if layout.startswith("NP2.4") and "shank" in res:
             parent_s, parent_u = res["shank"]
             for sh in sorted({s[0] for s in sites}):
+                split = {}
                 for sort, parent in ((True, parent_s), (False, parent_u)):
                     try:
                         th, ind = _geom(d, kind, sites, "shank", sort, extra=[("NP2.4_shank", "%d" % sh)], name="s")
@@ -210,6 +211,38 @@ def select_check(case):
                         if not np.array_equal(np.asarray(th[key]), np.asarray(parent[key])[sel]):
                             bad("split:%s" % key, "%s %r shank %d sort=%s: split geometry %s=%r is not the parent's restriction %r"
                                 % (kind, sites, sh, sort, key, np.asarray(th[key]).tolist(), np.asarray(parent[key])[sel].tolist()))
+                    split[sort] = (th, ind)
+                # the split geometry is itself a geometry: each recorded site once, sorting moves every attribute - the original index too - together
+                if len(split) == 2:
+                    (th_s, ind_s), (th_u, ind_u) = split[True], split[False]
+                    n = np.asarray(th_u["shank"]).size
+                    if sorted(np.asarray(th_u["ind"]).tolist()) != list(range(n)) or sorted(np.asarray(th_s["ind"]).tolist()) != list(range(n)):
+                        bad("split:ind-range", "%s %r shank %d: the original index of the split geometry (unsorted %r, sorted %r) does not list each of its %d recorded sites once"
+                            % (kind, sites, sh, np.asarray(th_u["ind"]).tolist(), np.asarray(th_s["ind"]).tolist(), n))
+                    elif sorted(np.asarray(ind_s).tolist()) != list(range(n)):
+                        bad("split:sorted-permutation", "%s %r shank %d: sort index %r is not a permutation" % (kind, sites, sh, np.asarray(ind_s).tolist()))
+                    else:
+                        for key in KEYS:
+                            if not np.array_equal(np.asarray(th_s[key]), np.asarray(th_u[key])[np.asarray(ind_s)]):
+                                bad("split:joint-permutation:%s" % key, "%s %r shank %d: attribute %s of the split geometry is not moved with the sites: sorted %r, unsorted[ind] %r"
+                                    % (kind, sites, sh, key, np.asarray(th_s[key]).tolist(), np.asarray(th_u[key])[np.asarray(ind_s)].tolist()))
+        # the library's own restriction function, for every shank of the probe - those without a site too
+        if "shank" in res:
+            for sort_i, parent in enumerate(res["shank"]):
+                for sh in range(4):
+                    try:
+                        hs = neuropixel.split_trace_header({kk: np.array(vv) for kk, vv in parent.items()}, shank=sh)
+                    except Exception as e:
+                        bad("restrict:exc", "split_trace_header(shank=%d) on %s %r: %s: %s" % (sh, kind, sites, type(e).__name__, e))
+                        continue
+                    ntr += 1
+                    sel = np.flatnonzero(np.asarray(parent["shank"]) == sh)
+                    for key in KEYS:
+                        if key not in hs or not np.array_equal(np.asarray(hs[key]), np.asarray(parent[key])[sel]):
+                            bad("restrict:%s" % key, "split_trace_header(shank=%d) on %s %r (shanks present %r): %s=%r is not the restriction %r"
+                                % (sh, kind, sites, sorted(set(np.asarray(parent["shank"]).astype(int).tolist())), key,
+                                   np.asarray(hs.get(key, [])).tolist()[:8], np.asarray(parent[key])[sel].tolist()[:8]))
+                            break
     return Res(v, o=(layout,), tr=ntr)
 
 
@@ -272,6 +305,9 @@ def splitfile_check(case):
                         elif not np.array_equal(got, parent[key][sel]):
                             bad("splitfile:%s" % key, "%r (%s map) shank %d %s file sort=%s: reader geometry %s=%r is not the parent's restriction %r"
                                 % (assign, enc, sh, band, sort, key, got.tolist(), parent[key][sel].tolist()))
+                    if "ind" in g and sorted(np.asarray(g["ind"]).tolist()) != list(range(nchan)):
+                        bad("splitfile:ind-range", "%r (%s map) shank %d %s file sort=%s: the original index %r does not list each of the %d recorded sites once"
+                            % (assign, enc, sh, band, sort, np.asarray(g["ind"]).tolist(), nchan))
                     sr.close()
     except Exception as e:
         bad("splitfile:exc:%s" % type(e).__name__, "%r (%s map): %s: %s" % (assign, enc, type(e).__name__, e))
